@@ -258,7 +258,7 @@ REGISTRY.add(Contract(
         "implies(how == 'denied', cl == 'args' and good)",                               # otherwise AccessDenied, below
     ],
     raises={"AccessDenied": ["how == 'denied'", "not (cl == 'args' and good)", "exc.pid == self._pid"]},
-    canaries=["result == 'zz'"], replay=None,
+    canaries=["result == 'zz'"], replay="c12:exe_front",
     note="native answer wins and is cached; '' or AccessDenied from the platform layer falls back to cmdline()[0] only "
          "when that is an absolute path to an executable regular file; otherwise '' resp. the original AccessDenied"))
 
